@@ -26,7 +26,7 @@ RULE = ("two inverter objects (all ordered pairs of 8 templates: ET 205 eco-v2 /
 ASSUMPTIONS = ["results are compared by type name, str() and (for eco-mode / schedule values) their public fields",
                "each transcript runs in its own interpreter started by the check (subprocess per transcript)"]
 MUST = ["transcripts", "interleavings_compared", "concurrent_interleavings", "snapshots_checked", "eco_values_snapshotted",
-        "cross_family_pairs", "same_template_pairs", "requests_compared", "concurrent_with_fragmented_answers"]
+        "cross_family_pairs", "same_template_pairs", "requests_compared", "concurrent_with_fragmented_answers", "long_history_pairs"]
 EXHAUSTIVE = {"quick": False, "thorough": False}
 
 TEMPLATES = ["ET205", "ET205g", "ET745", "ETv1", "ETf", "DT", "DTu", "ESv1", "ESv2", "ESv2g"]
@@ -141,6 +141,13 @@ def worker(spec):
         # device info always first, in object order (identical in solo and interleaved runs)
         for i in spec["active"]:
             await invs[i].read_device_info()
+        for i in spec["active"]:
+            # an object with a long history: it has already built this many Modbus/TCP requests (what every transmission does)
+            for _ in range(objs[i].get("pre_tx", 0)):
+                try:
+                    invs[i]._protocol.read_command(35100, 1).request_bytes()
+                except Exception:       # noqa  (A's own history is C03's subject; here only what it does to B counts)
+                    pass
         if spec["schedule"] == "concurrent":
             async def seq(i):
                 await asyncio.sleep(spec["offsets"][i])
@@ -262,6 +269,8 @@ def scenario_check(sc, part, workdir):
         if "crash" in o or o.get("stop") or o.get("error"):
             part.violate("C20/transcript-failed", f"{pair}: {o.get('crash') or o.get('stop') or o.get('error')}", case)
             return
+    if sc.get("long_history"):
+        part.count("long_history_pairs")
     if objs[0]["template"][:2] != objs[1]["template"][:2]:
         part.count("cross_family_pairs")
     if objs[0]["template"] == objs[1]["template"]:
@@ -349,6 +358,17 @@ def fragment_scenarios(seed):
     return out
 
 
+def long_history_scenarios(seed):
+    """object A has a long Modbus/TCP history behind it (tens of thousands of requests) when object B makes its few calls"""
+    out = []
+    rr = [["read_runtime_data"], ["read_setting", "grid_export_limit"]]
+    for a, b, pre in (("ET205", "ET205", 65527), ("ET205", "ET205", 65530), ("DT", "ET205", 65526), ("ET205", "DT", 131060), ("DT", "DT", 65531)):
+        out.append({"seed": f"{seed}:hist:{a}:{b}", "n_random_merges": 0, "n_concurrent": 1, "long_history": True,
+                    "objects": [{"template": a, "port": 502, "seed": f"{seed}:hA{len(out)}", "calls": [["read_runtime_data"]], "pre_tx": pre},
+                                {"template": b, "port": 502, "seed": f"{seed}:hB{len(out)}", "calls": rr}]})
+    return out
+
+
 def plan(tier, seed):
     n = 16
     return [{"shard": i, "shards": n, "tier": tier, "seed": seed} for i in range(n)]
@@ -358,7 +378,7 @@ def run_shard(spec):
     part = Part()
     tier = spec["tier"]
     rnd = random.Random(f"{spec['seed']}:C20")
-    scs = directed_scenarios(spec["seed"]) + fragment_scenarios(spec["seed"])
+    scs = directed_scenarios(spec["seed"]) + fragment_scenarios(spec["seed"]) + long_history_scenarios(spec["seed"])
     pairs = list(itertools.product(TEMPLATES, repeat=2))
     reps = 1 if tier == "quick" else 12
     for r in range(reps):
